@@ -111,6 +111,29 @@ pub fn enabled_with_commits(keys: &[Ev], shown: Option<&Rend>, extra: &[Ev]) -> 
     v
 }
 
+/// update-engine events for an idle phonetic context: the same configuration and every single flip of
+/// {English, suggestions, ANSI, smart quotes} of the current one
+fn idle_updates(cur: &Opts) -> Vec<Ev> {
+    let mut v = vec![Ev::Update(Box::new(cur.clone()))];
+    // (a history that re-configured the context makes the search re-create it from scratch before the next history:
+    // affordable with the fixture data only)
+    if !cur.db.contains("fixtures") {
+        return v;
+    }
+    for i in 0..4 {
+        let mut o = cur.clone();
+        o.via_update = false;
+        match i {
+            0 => o.english = !o.english,
+            1 => o.psugg = !o.psugg,
+            2 => o.ansi = !o.ansi,
+            _ => o.smart = !o.smart,
+        }
+        v.push(Ev::Update(Box::new(o)));
+    }
+    v
+}
+
 pub fn run(report: &Report, thorough: bool) -> Evidence {
     let layout = fixture("layout_synth.json");
     let tiny = fixture("tiny_db");
@@ -410,12 +433,10 @@ pub fn run(report: &Report, thorough: bool) -> Evidence {
                 |_h, shown, ctx| {
                     let mut extra = vec![Ev::Restart];
                     if !ctx.ongoing() {
-                        // update-engine is in contract while idle
-                        let mut u = same.clone();
-                        if let Ev::Update(o) = &mut u {
-                            o.xdg = ctx.opts.xdg.clone();
-                        }
-                        extra.push(u);
+                        // update-engine is in contract while idle: to the same configuration and to each single option flip
+                        // of the current one (a learned state meets another option setting)
+                        let _ = &same;
+                        extra.extend(idle_updates(&ctx.opts));
                     }
                     enabled_with_commits(&keys, shown, &extra)
                 },
@@ -480,7 +501,10 @@ pub fn run(report: &Report, thorough: bool) -> Evidence {
                 &BTreeMap::new(),
                 &prefixes,
                 if thorough { 3 } else { 2 },
-                |_h, shown, _ctx| enabled_with_commits(&keys, shown, &[]),
+                |_h, shown, ctx| {
+                    let extra = if !ctx.ongoing() { idle_updates(&ctx.opts) } else { vec![] };
+                    enabled_with_commits(&keys, shown, &extra)
+                },
                 |ctx, step| {
                     if let Err(f) = step.out {
                         let mut evs = step.hist.to_vec();
